@@ -54,6 +54,80 @@ def naming_family(big):
     return out
 
 
+def decorator_family():
+    """Decorator definitions and uses in every small arrangement: self use, use of an enclosing definition that is still
+    open (directly or through a decorator defined inside it), mutual and forward references, definitions nested in
+    definitions and in blocks, `next` in odd places.  The code generator in-lines a definition at every use, so what
+    keeps compilation finite is the checker's refusal of uses of unfinished definitions."""
+    use = lambda n, body="next": "@%s {\n%s\n}\n" % (n, body)
+    D = lambda n, body: "def %s {\n%s}\n" % (n, body)
+    bodies = {
+        "plain": "/a/ {\n next\n}\n",
+        "self": use("a"),
+        "self_in_block": "/a/ {\n" + use("a") + "}\n",
+        "inner_uses_outer": D("b", use("a")) + use("b"),
+        "inner_uses_outer_in_block": D("b", "/x/ {\n" + use("a") + "}\n") + "/y/ {\n" + use("b") + "}\n",
+        "inner_inner_uses_outer": D("b", D("c", use("a")) + use("c")) + use("b"),
+        "inner_uses_itself": D("b", use("b")) + use("b"),
+        "inner_defined_not_used": D("b", use("a")) + "next\n",
+        "uses_forward": use("z"),
+        "two_inner_mutual": D("b", use("c")) + D("c", use("b")) + use("b"),
+        "next_twice": "next\nnext\n",
+        "redefines_itself": D("a", "next\n") + "next\n",
+    }
+    tails = ["@a {\n  c++\n}\n", "@a {\n  @a {\n    c++\n  }\n}\n", "/q/ {\n  @a {\n    c++\n  }\n}\n", "c++\n"]
+    out = []
+    for k, b in sorted(bodies.items()):
+        for t in tails:
+            out.append("counter c\n" + D("a", b) + "def z {\n  next\n}\n@z {\n}\n" + t)
+    # forward and mutual references at top level
+    out.append("counter c\n" + D("a", use("b")) + D("b", use("a")) + use("a", "  c++"))
+    out.append("counter c\n" + use("a", "  c++") + D("a", "next\n"))
+    return out
+
+
+def crashed(msg):
+    return "fatal error" in msg or "stack overflow" in msg or "timed out" in msg
+
+
+def one_process_each(ctx, binary, cases, label):
+    """Each case in its own harness process: a compile that kills the process (fatal stack overflow, not a panic) is
+    attributed to its case and reported, instead of taking the whole batch with it."""
+    recs = []
+    for c in cases:
+        try:
+            recs.append([x for x in vlib.run_harness(ctx, binary, cases=[c], timeout=120) if "n" in x][0])
+        except vlib.InfraError as e:
+            msg = str(e)
+            if not crashed(msg):
+                raise
+            try:            # once more from a clean start
+                vlib.run_harness(ctx, binary, cases=[c], timeout=120)
+                raise vlib.InfraError("%s: harness died on %r once, not twice:\n%s" % (label, c, msg[-600:]))
+            except vlib.InfraError as e2:
+                if str(e2).startswith(label):
+                    raise
+                why = "fatal error: stack overflow" if "stack overflow" in str(e2) else "fatal error" if "fatal error" in str(e2) else "no result within 120 s"
+                recs.append({"n": 0, "text": c.get("text", ""), "livelock": False, "toks": None, "crash": True,
+                             "contract": {"bad": ["compiling this text takes the whole process down (%s): not a panic, cannot be recovered" % why],
+                                          "first": {"object": False}, "secs": 0}})
+    return recs
+
+
+def batch(ctx, binary, cases, label, timeout=2400):
+    """The whole batch in one process; if that process dies, every case again in a process of its own."""
+    try:
+        recs = [x for x in vlib.run_harness(ctx, binary, cases=cases, timeout=timeout) if "n" in x]
+    except vlib.InfraError as e:
+        if not crashed(str(e)):
+            raise
+        vlib.log("%s: the harness process died, running the %d cases one by one" % (label, len(cases)))
+        return one_process_each(ctx, binary, cases, label)
+    if len(recs) != len(cases):
+        raise vlib.InfraError("lexx processed %d of %d cases (%s)" % (len(recs), len(cases), label))
+    return recs
+
+
 def run(ctx):
     binary = vlib.build(ctx, "lexx")
     worst = 0.0
@@ -62,9 +136,7 @@ def run(ctx):
     seen = 0
     for maxlen, classes in plan:
         r = vlib.tlc(ctx, "Lexer", lex_cfg(maxlen, sorted(set(classes))), label="Lexer-%d-%d" % (maxlen, len(set(classes))), timeout=2400, heap="12g")
-        recs = [x for x in vlib.run_harness(ctx, binary, cases=[{"src": c["src"], "rx": c["rx"]} for c in r.cases], timeout=2400) if "n" in x]
-        if len(recs) != len(r.cases):
-            raise vlib.InfraError("lexx processed %d of %d cases" % (len(recs), len(r.cases)))
+        recs = batch(ctx, binary, [{"src": c["src"], "rx": c["rx"]} for c in r.cases], "lexer classes")
         ctx.cov["exhaustive"] = True
         for c, rec in zip(r.cases, recs):
             ctx.cov["evaluations"] += 1
@@ -78,6 +150,9 @@ def run(ctx):
             elif rec["toks"] != c["toks"]:
                 bad.append("real lexer tokens %s, Lexer.tla %s" % (rec["toks"], c["toks"]))
             bad += judge_contract(rec)
+            if rec.get("crash") and not ctx.enough():
+                ctx.violation({"classes": c["src"], "rx": c["rx"], "mismatches": judge_contract(rec)}, "input classes %s: %s" % (c["src"], judge_contract(rec)[0][:250]))
+                continue
             if bad and not ctx.enough():
                 again = [x for x in vlib.run_harness(ctx, binary, cases=[{"src": c["src"], "rx": c["rx"]}]) if "n" in x][0]
                 if again["livelock"] or again["toks"] != c["toks"] or judge_contract(again):
@@ -96,15 +171,16 @@ def run(ctx):
         mut = {"kind": kind, "at": rnd.randrange(1001), "arg": rnd.choice(CLASSES),
                "n": rnd.choice([1, 5, 50, 94, 95, 96, 97, 98, 99, 100, 101, 102, 130, 300]) if kind == "nest" else rnd.choice([10, 511, 512, 513, 1500]) if kind == "longregex" else rnd.randrange(64)}
         cases.append({"seed": p["seed"] * 16 + i % 16, "prog": p["prog"], "mut": mut})
-    recs = [x for x in vlib.run_harness(ctx, binary, cases=cases, timeout=2400) if "n" in x]
-    if len(recs) != len(cases):
-        raise vlib.InfraError("lexx processed %d of %d mutants" % (len(recs), len(cases)))
+    recs = batch(ctx, binary, cases, "mutants")
     kinds = {}
     for c, rec in zip(cases, recs):
         ctx.cov["evaluations"] += 1
         worst = max(worst, rec["contract"].get("secs", 0))
         kinds[c["mut"]["kind"]] = kinds.get(c["mut"]["kind"], 0) + 1
         bad = judge_contract(rec)
+        if rec.get("crash") and not ctx.enough():
+            ctx.violation({"case": c, "mismatches": bad[:3]}, "mutant (%s): %s" % (c["mut"]["kind"], bad[0][:250]))
+            continue
         if bad and not ctx.enough():
             again = [x for x in vlib.run_harness(ctx, binary, cases=[{"seed": 1, "text": rec["text"]}]) if "n" in x][0]
             bad2 = judge_contract(again)
@@ -116,18 +192,28 @@ def run(ctx):
     #    numbers or names of their neighbours, referenced directly, in a nested block and through a decorator's scope copy;
     #    each text is compiled 1 + reps times.
     fam = naming_family(ctx.thorough)
-    frecs = [x for x in vlib.run_harness(ctx, binary, cases=[{"seed": 1, "text": t, "reps": 40} for t in fam], timeout=2400) if "n" in x]
-    if len(frecs) != len(fam):
-        raise vlib.InfraError("lexx processed %d of %d naming cases" % (len(frecs), len(fam)))
+    frecs = batch(ctx, binary, [{"seed": 1, "text": t, "reps": 40} for t in fam], "naming family")
     for t, rec in zip(fam, frecs):
         ctx.cov["evaluations"] += 1
         bad = judge_contract(rec)
+        if rec.get("crash") and not ctx.enough():
+            ctx.violation({"text": t, "mismatches": bad[:3]}, "capture-group naming family: %s; source %r" % (bad[0][:200], t))
+            continue
         if bad and not ctx.enough():
             again = [x for x in vlib.run_harness(ctx, binary, cases=[{"seed": 1, "text": t, "reps": 200}]) if "n" in x][0]
             bad2 = judge_contract(again)
             if bad2:
                 ctx.violation({"text": t, "reps": 200, "mismatches": bad2[:3], "diff": again["contract"].get("diff")},
                               "capture-group naming family: %s; source %r" % (bad2[0][:200], t))
+    # 4. decorator structure family, one process per text
+    dfam = decorator_family()
+    drecs = one_process_each(ctx, binary, [{"seed": 1, "text": t, "reps": 2} for t in dfam], "decorator family")
+    for t, rec in zip(dfam, drecs):
+        ctx.cov["evaluations"] += 1
+        bad = judge_contract(rec)
+        if bad and not ctx.enough():
+            ctx.violation({"text": t, "mismatches": bad[:3], "reps": 2}, "decorator family: %s; source %r" % (bad[0][:200], t))
+    ctx.cov["decorator_family"] = {"texts": len(dfam), "accepted": sum(1 for r in drecs if r["contract"]["first"]["object"])}
     ctx.cov["naming_family"] = {"texts": len(fam), "compiles_each": 41, "accepted": sum(1 for r in frecs if r["contract"]["first"]["object"])}
     ctx.cov["distinct_nontrivial"] = seen + len(cases)
     ctx.cov["mutants_by_kind"] = kinds
@@ -141,7 +227,7 @@ def run(ctx):
 def replay(ctx, path):
     binary = vlib.build(ctx, "lexx")
     rc = json.load(open(path))["case"]
-    rec = [x for x in vlib.run_harness(ctx, binary, cases=[{"seed": 1, "text": rc["text"], "reps": rc.get("reps", 1)}]) if "n" in x][0]
+    rec = one_process_each(ctx, binary, [{"seed": 1, "text": rc["text"], "reps": rc.get("reps", 1)}], "replay")[0]
     bad = judge_contract(rec)
     if rec["contract"].get("diff"):
         print("replay: the two results:\n%s" % json.dumps(rec["contract"]["diff"], indent=1))
